@@ -5,7 +5,7 @@ VARIABLE c
 
 Cases == {x \in [D : Traits, kind : {"struct", "enum"}, bpos : {"container", "variant", "both"}, gf : BOOLEAN,
                  shape : {"unit", "one", "two"}, other : {"none", "unit", "generic"}, spelling : {"bound", "bounds"},
-                 split : BOOLEAN, uses : BOOLEAN, lit : BOOLEAN] : WellFormed(x)}
+                 split : BOOLEAN, uses : BOOLEAN, lit : BOOLEAN, sh : {"none", "wrap", "default"}] : WellFormed(x)}
 Init == c \in Cases
 Next == UNCHANGED c
 Spec == Init /\ [][Next]_c
